@@ -30,6 +30,7 @@ pub struct S11 {
 }
 impl S11 {
     fn process_sync(&self, a: u32) -> u32 {
+        crate::drip::probe_bump();
         f0(a, 0, self.k)
     }
 }
@@ -47,6 +48,7 @@ pub struct S12 {
 }
 impl S12 {
     fn process_sync(&self, a: u32) -> (u32, u32) {
+        crate::drip::probe_bump();
         (f0(a, 0, self.k), f1(a, 0, self.k))
     }
 }
@@ -66,6 +68,7 @@ pub struct S13 {
 }
 impl S13 {
     fn process_sync(&self, a: u32) -> (u32, u32, u32) {
+        crate::drip::probe_bump();
         (f0(a, 0, self.k), f1(a, 0, self.k), f2(a, 0, self.k))
     }
 }
@@ -83,6 +86,7 @@ pub struct S21 {
 }
 impl S21 {
     fn process_sync(&self, a: u32, b: u32) -> u32 {
+        crate::drip::probe_bump();
         f0(a, b, self.k)
     }
 }
@@ -102,6 +106,7 @@ pub struct S22 {
 }
 impl S22 {
     fn process_sync(&self, a: u32, b: u32) -> (u32, u32) {
+        crate::drip::probe_bump();
         (f0(a, b, self.k), f1(a, b, self.k))
     }
 }
@@ -123,6 +128,7 @@ pub struct S23 {
 }
 impl S23 {
     fn process_sync(&self, a: u32, b: u32) -> (u32, u32, u32) {
+        crate::drip::probe_bump();
         (f0(a, b, self.k), f1(a, b, self.k), f2(a, b, self.k))
     }
 }
@@ -141,6 +147,7 @@ pub struct T11 {
 }
 impl T11 {
     fn process_sync_tags<'a>(&mut self, a: u32, tags: &'a [Tag]) -> (u32, Cow<'a, [Tag]>) {
+        crate::drip::probe_bump();
         let o = f0(a, 0, self.k);
         if a % 7 == 0 {
             let mut t = tags.to_vec();
@@ -165,6 +172,7 @@ pub struct T21 {
 }
 impl T21 {
     fn process_sync_tags<'a>(&mut self, a: u32, tags: &'a [Tag], b: u32, _btags: &'a [Tag]) -> (u32, Cow<'a, [Tag]>) {
+        crate::drip::probe_bump();
         let o = f0(a, b, self.k);
         if a % 7 == 0 {
             let mut t = tags.to_vec();
@@ -193,6 +201,7 @@ pub struct SDefInto {
 }
 impl SDefInto {
     fn process_sync(&mut self, a: u32) -> u32 {
+        crate::drip::probe_bump();
         // `count` must start at its Default (0): the output depends on it
         self.count = self.count.wrapping_add(1);
         if self.seen.len() < 4 {
